@@ -12,6 +12,7 @@ import (
 	"unicode/utf8"
 
 	"github.com/inspirer/textmapper/status"
+	rtc "github.com/inspirer/textmapper/zz_verif_rtc"
 )
 
 type c09node string
@@ -41,7 +42,7 @@ func c09compile(rules []lgRule, m lgMode, backtracking bool, named map[string]*l
 		res[name] = &Pattern{Name: name, RE: re, Text: nd.lgRender(), Origin: c09node(name)}
 	}
 	for i, ru := range rules {
-		text := ru.node.lgRender()
+		text := ru.pattern()
 		re, err := ParseRegexp(text, opts)
 		if err != nil {
 			return nil, fmt.Errorf("pattern /%s/: %v", text, err), ""
@@ -65,12 +66,85 @@ func c09desc(rules []lgRule, m lgMode) string {
 	var sb strings.Builder
 	fmt.Fprintf(&sb, "fold=%v bytes=%v:", m.fold, m.bytes)
 	for _, r := range rules {
-		fmt.Fprintf(&sb, " /%s/->%d(prec %d, sc %v)", r.node.lgRender(), r.act, r.prec, r.scs)
+		fmt.Fprintf(&sb, " /%s/->%d(prec %d, sc %v)", r.pattern(), r.act, r.prec, r.scs)
 	}
 	return sb.String()
 }
 
+// c09checkScans compares Tables.Scan with the specified result on every probe text.
+func c09checkScans(ck *vCheck, desc string, tb *Tables, rules []lgRule, nsc int, m lgMode, universe []rune, maxText int) {
+	for sc := 0; sc < nsc && sc < len(tb.StateMap); sc++ {
+		for _, text := range lgTexts(universe, maxText) {
+			wantSize, wantAct := lgScan(rules, sc, text, m, universe)
+			src, offs := lgEncode(text, m)
+			var size, act int
+			if p := vRecover(func() { size, act = tb.Scan(sc, src) }); p != "" {
+				ck.Failf(desc, "Scan(%d, %q) panicked: %s", sc, src, p)
+				return
+			}
+			if wantSize > 0 {
+				if size != offs[wantSize] || act != wantAct {
+					ck.Failf(desc, "Scan(%d, %q) = (%d, action %d), specified longest match is %d bytes with action %d", sc, src, size, act, offs[wantSize], wantAct)
+					return
+				}
+				continue
+			}
+			if len(text) == 0 {
+				// an {eoi} rule may legitimately match the empty text; the property speaks of non-empty prefixes
+				emptyEoi := false
+				for _, ru := range rules {
+					emptyEoi = emptyEoi || ru.eoi
+				}
+				if emptyEoi {
+					continue
+				}
+			}
+			// no rule matches a non-empty prefix: invalid token over the longest viable prefix
+			viable := 0
+			for k := 1; k <= len(text); k++ {
+				for _, ru := range rules {
+					active := false
+					for _, s := range ru.scs {
+						active = active || s == sc
+					}
+					if active && ru.node.lgLive(text[:k], 0, m, universe) {
+						viable = k
+					}
+					// a complete match of an {eoi} rule can still be extended by the end of input
+					if active && ru.eoi && ru.node.lgEnds(text[:k], map[int]bool{0: true}, m, universe)[k] {
+						viable = k
+					}
+				}
+				if viable != k {
+					break
+				}
+			}
+			if act != 0 || size != offs[viable] {
+				ck.Failf(desc, "Scan(%d, %q) = (%d, action %d), want an invalid token (action 0) spanning the longest viable prefix of %d bytes", sc, src, size, act, offs[viable])
+				return
+			}
+		}
+	}
+}
+
+// c09precondition evaluates the predicate the deductive contract of Tables.Scan assumes (wfTables,
+// text taken from the contract file itself) on tables built by Compile.
+func c09precondition(pre *vCheck, pe *rtc.PredEval, desc string, tb *Tables) {
+	pre.Case(true)
+	v, why, ok := pe.Eval("wfTables", tb)
+	if !ok {
+		pre.Failf(desc, "wfTables could not be evaluated: %s", why)
+	} else if !v {
+		pre.Failf(desc, "Compile returned tables that violate wfTables (the precondition of Tables.Scan): NumSymbols=%d SymbolMap=%v StateMap=%v Dfa=%v Backtrack=%v", tb.NumSymbols, tb.SymbolMap, tb.StateMap, tb.Dfa, tb.Backtrack)
+	}
+}
+
 func TestVerifC09(t *testing.T) {
+	pe, perr := rtc.NewPredEval(nil, "zz_verif_contracts.go")
+	if perr != nil {
+		t.Fatal(perr)
+	}
+	pre := vNew("C09/scan-precondition", "every table built in the other C09 checks: the predicate wfTables of lex/zz_verif_contracts.go (the assumed precondition of the deductive contract of Tables.Scan) is evaluated on it", false, "Compile")
 	ck := vNew("C09/longest-match", "seeded rule sets of 1..4 rules (pattern trees of depth <=2: literals, classes incl. negated/subtracted, \\d \\w \\s ., ? * + {n} {n,} {n,m}, alternation, groups; 1..2 start conditions; precedences), modes {runes, bytes} x {fold, no fold}; all texts of <=3 symbols (<=4 thorough) over an 11..12 symbol probe alphabet incl. multi-byte runes and invalid UTF-8", false,
 		"Compile", "compiler.addPattern", "compiler.compile", "compiler.serialize", "compressCharsets", "generator.addState", "generator.generate", "Tables.Scan")
 	r := vNewRand(vSeed() + 31)
@@ -110,50 +184,54 @@ func TestVerifC09(t *testing.T) {
 		if i < 3 {
 			ck.Sample(desc)
 		}
-		bad := false
-		for sc := 0; sc < nsc && sc < len(tb.StateMap) && !bad; sc++ {
-			for _, text := range lgTexts(universe, maxText) {
-				wantSize, wantAct := lgScan(rules, sc, text, m, universe)
-				src, offs := lgEncode(text, m)
-				var size, act int
-				if p := vRecover(func() { size, act = tb.Scan(sc, src) }); p != "" {
-					ck.Failf(desc, "Scan(%d, %q) panicked: %s", sc, src, p)
-					bad = true
-					break
-				}
-				if wantSize > 0 {
-					if size != offs[wantSize] || act != wantAct {
-						ck.Failf(desc, "Scan(%d, %q) = (%d, action %d), specified longest match is %d bytes with action %d", sc, src, size, act, offs[wantSize], wantAct)
-						bad = true
-						break
-					}
-					continue
-				}
-				// no rule matches a non-empty prefix: invalid token over the longest viable prefix
-				viable := 0
-				for k := 1; k <= len(text); k++ {
-					for _, ru := range rules {
-						active := false
-						for _, s := range ru.scs {
-							active = active || s == sc
-						}
-						if active && ru.node.lgLive(text[:k], 0, m, universe) {
-							viable = k
-						}
-					}
-					if viable != k {
-						break
-					}
-				}
-				if act != 0 || size != offs[viable] {
-					ck.Failf(desc, "Scan(%d, %q) = (%d, action %d), want an invalid token (action 0) spanning the longest viable prefix of %d bytes", sc, src, size, act, offs[viable])
-					bad = true
-					break
-				}
-			}
-		}
+		c09precondition(pre, pe, desc, tb)
+		c09checkScans(ck, desc, tb, rules, nsc, m, universe, maxText)
 	}
-	vWrite(t, []string{"pattern meaning is computed from generated syntax trees (never from the pattern text); symbol sets are restricted to the probe alphabet", "rules using {eoi} and named sub-patterns are exercised by C09/eoi-and-named"}, ck)
+	// rules ending in {eoi} and rules using named sub-patterns
+	en := vNew("C09/eoi-and-named", "seeded rule sets of 1..3 rules where rules end in {eoi} and/or start with a named sub-pattern {n0} (pattern trees of depth <=1 for the parts), modes {runes, bytes} x {fold, no fold}; all texts of <=3 probe symbols; {eoi} is specified as consuming the end-of-input symbol", false,
+		"Compile", "compiler.addPattern", "compiler.serialize", "Tables.Scan")
+	n2 := c09count(400, 10000)
+	for i := 0; i < n2; i++ {
+		m := lgMode{fold: i%4 == 1, bytes: i%2 == 1}
+		universe := lgAlphabet(m)
+		nr := 1 + r.Intn(3)
+		def := lgRandNode(r, 1, m, universe)
+		named := map[string]*lgNode{"n0": def}
+		var rules []lgRule
+		for k := 0; k < nr; k++ {
+			ru := lgRule{prec: r.Intn(2), act: 2 + k, scs: []int{0}, eoi: r.Intn(2) == 0}
+			rest := lgRandNode(r, 1, m, universe)
+			if r.Intn(2) == 0 {
+				ru.node = &lgNode{kind: lgCat, sub: []*lgNode{def, rest}}
+				rt := rest.lgRender()
+				if rest.kind == lgAlt {
+					rt = "(" + rt + ")"
+				}
+				ru.text = "{n0}" + rt
+			} else {
+				ru.node = rest
+			}
+			rules = append(rules, ru)
+		}
+		desc := c09desc(rules, m) + " n0=/" + def.lgRender() + "/"
+		tb, err, pmsg := c09compile(rules, m, true, named)
+		if pmsg != "" {
+			en.Case(true)
+			en.Failf(desc, "Compile panicked: %s", pmsg)
+			continue
+		}
+		if err != nil {
+			en.Case(false)
+			continue
+		}
+		en.Case(true)
+		if i < 3 {
+			en.Sample(desc)
+		}
+		c09precondition(pre, pe, desc, tb)
+		c09checkScans(en, desc, tb, rules, 1, m, universe, 3)
+	}
+	vWrite(t, []string{"pattern meaning is computed from generated syntax trees (never from the pattern text); symbol sets are restricted to the probe alphabet", "rules using {eoi} and named sub-patterns are exercised by C09/eoi-and-named"}, ck, en, pre)
 }
 
 // TestVerifC10 checks the denotation of single patterns and the rejection of malformed ones.
